@@ -1313,6 +1313,37 @@ func (f *Frame) loopHeader(li *LoopInfo, st *State, phiEntry map[*ssa.Phi]Val) {
 	}
 }
 
+// rangeIntBound: for `for i := range n` (go/ssa: phi i; ...; i+1 < n on the back edge) the value n, if it is
+// defined outside the loop.
+func rangeIntBound(li *LoopInfo) ssa.Value {
+	var phi *ssa.Phi
+	for _, in := range li.Header.Instrs {
+		if p, ok := in.(*ssa.Phi); ok && strings.HasPrefix(p.Comment, "rangeint") {
+			phi = p
+		}
+	}
+	if phi == nil {
+		return nil
+	}
+	for blk := range li.Body {
+		for _, in := range blk.Instrs {
+			cmp, ok := in.(*ssa.BinOp)
+			if !ok || cmp.Op != token.LSS {
+				continue
+			}
+			inc, ok := cmp.X.(*ssa.BinOp)
+			if !ok || inc.Op != token.ADD || inc.X != ssa.Value(phi) {
+				continue
+			}
+			if yi, ok := cmp.Y.(ssa.Instruction); ok && li.Body[yi.Block()] {
+				continue // bound computed inside the loop
+			}
+			return cmp.Y
+		}
+	}
+	return nil
+}
+
 // autoInvariants: facts about compiler-generated range counters (checked like any other invariant).
 func autoInvariants(li *LoopInfo) []*Clause {
 	var cs []*Clause
@@ -1463,6 +1494,15 @@ func (f *Frame) varAt(b *ssa.BasicBlock, name string, pos token.Pos, st *State, 
 				return f.val(p, p.Type()), true
 			}
 		}
+	}
+	if name == "__bound" {
+		// the (loop-invariant) upper bound of an integer range loop: `for i := range n` compares i+1 < n
+		if li := f.loops[b]; li != nil {
+			if bv := rangeIntBound(li); bv != nil {
+				return f.val(bv, bv.Type()), true
+			}
+		}
+		return Val{}, false
 	}
 	obj := g.ctx.scopeLookup(f.fn, pos, name)
 	cands := map[ssa.Value]bool{}
